@@ -1,4 +1,4 @@
-"""C18 (arithmetic half) — Fragments::new never drops data: fragment-count arithmetic for all data lengths and fragment sizes.
+"""C18 (arithmetic half) — Fragments::new never drops data: fragment-count arithmetic for all fragment sizes on stated ranges of data lengths.
 Encoded (scalar mode): MIR of dicom_core::value::fragments::Fragments::new up to the chunking call."""
 import os
 from z3 import *
@@ -25,6 +25,7 @@ def run(rep, tier, seed, known, part):
         return a
     contracts = {
         r"^Vec::<u8>::len$": lambda M, a, pc: deref(a[0])["len"],
+        r"^Vec::<Vec<u8>>::new$": lambda M, a, pc: {"len": BitVecVal(0, 64)},
         r"<impl f32>::ceil$": lambda M, a, pc: fpRoundToIntegral(RTP(), a[0]),
         r"^Vec::<u8>::resize$": lambda M, a, pc: (deref(a[0]).__setitem__("len", a[1]), None)[1],
         r"<Vec<u8> as Deref>::deref$": lambda M, a, pc: deref(a[0]),
@@ -48,10 +49,15 @@ def run(rep, tier, seed, known, part):
     panics = [p for p, msg in M.panics if not is_false(p)]
     import time
     MAXFS = BitVecVal(0xFFFFFFFF, 32)
+    other = And(fs != MAXFS, Not(And(L == 0, fs == 0)))
+    B = lambda v: BitVecVal(v, 64)
+    # the full domain L <= 2^26 is beyond z3's bit-blasting of 64-bit division (unknown after 120 s, also with a division lemma);
+    # the claim is therefore stated on sub-domains that z3 decides in seconds (measured: 21 s / 12 s); a window at 2^26 already came back unknown
     regions = [
-        ("largest fragment size (u32::MAX)", fs == MAXFS, "c18_fragments_new_fs_max"),
+        ("largest fragment size (u32::MAX), data length <= 2^16", And(fs == MAXFS, ULE(L, B(1 << 16))), "c18_fragments_new_fs_max"),
         ("empty data with fragment size 0", And(L == 0, fs == 0), "c18_fragments_new_empty"),
-        ("every other data length <= 2^26 and fragment size", And(fs != MAXFS, Not(And(L == 0, fs == 0))), "c18_fragments_new"),
+        ("data lengths <= 2^16, every other fragment size", And(other, ULE(L, B(1 << 16))), "c18_fragments_new"),
+        ("data lengths within [2^24 - 8, 2^24 + 24] (where f32 stops being exact), every other fragment size", And(other, UGE(L, B((1 << 24) - 8)), ULE(L, B((1 << 24) + 24))), "c18_fragments_new"),
     ]
     for label, region, role in regions:
         s = Solver()
@@ -97,4 +103,67 @@ def run(rep, tier, seed, known, part):
             s2.pop()
         if exp and real[0] != "PANIC" and (int(real[1]) != (exp[0] // exp[1]) * exp[1] or int(real[0]) != exp[0] // exp[1]):
             rep.inconclusive.append("encoding disagrees with native Fragments::new(%d,%d): %s vs %s" % (lv, fv, exp, real))
+    run_bot(rep, tier, seed, known, nat.ask)
     nat.close()
+
+
+def run_bot(rep, tier, seed, known, nat_ask):
+    """From<Vec<Fragments>> for PixelFragmentSequence: basic offset table for frames with SYMBOLIC fragment lengths (container mode)."""
+    import core
+    path, _ = mirdump.dump("dicom-core")
+    core.load([path])
+    os.remove(path)
+    FROM = next(n for n, f in core.FNS.items() if n.endswith("::from") and "fragments" in n and f.ptext.startswith("_1: Vec<Fragments>"))
+    rep.functions += ["<PixelFragmentSequence<Vec<u8>> as From<Vec<Fragments>>>::from", "Fragments::len (+closure)", "Fragments::is_multiframe"]
+    for nframes in ((2, 3, 4, 5) if tier == "quick" else (1, 2, 3, 4, 5, 6, 7)):
+        lens = [BitVec("len%d" % k, 64) for k in range(nframes)]
+
+        def build(ctx, lens=lens, nframes=nframes):
+            for l in lens:
+                ctx.pc.append(ULE(l, BitVecVal(1 << 20, 64)))          # fragment lengths up to 1 MiB (no u32 overflow of the running offset)
+            frames = core.VecV([core.Struct([core.VecV([core.AbstractBytes(l)])]) for l in lens])
+            r = core.run_fn(FROM, [frames], ctx)
+            bot = r.f[0].items
+            ctx.bot = bot
+            if len(bot) != nframes or len(r.f[1].items) != nframes:
+                return BoolVal(True)
+            bad = []
+            expect = BitVecVal(0, 32)
+            for k in range(nframes):
+                got = bot[k] if not isinstance(bot[k], int) else BitVecVal(bot[k], 32)
+                bad.append(got != expect)
+                expect = expect + Extract(31, 0, lens[k]) + 8
+            return Or(bad)
+        res = core.explore(build)
+        rep.nontrivial += res["paths"]
+        name = "From<Vec<Fragments>>: offset table of %d single-fragment frames == cumulative (length + 8), all fragment lengths <= 2^20" % nframes
+        if res["violation"]:
+            model = res["violation"][0]
+            lv = [model.eval(l, model_completion=True).as_long() for l in lens]
+            lv = [max(2, min(x, 4096) & ~1) for x in lv]          # replay with non-empty even lengths (Fragments::new pads odd data) of moderate size
+            real = nat_ask("bot", *lv)
+            want = []
+            acc = 0
+            for x in lv:
+                want.append(acc)
+                acc += x + 8
+            rp = rep.replay_file("c18_bot_%d" % nframes, "// engine=M case=c18\n// native: bot %s\n// real offset table: %s, expected %s\n" % (" ".join(map(str, lv)), real, want))
+            if real != " ".join(map(str, want)):
+                rep.violations.append(("offset table for frames of %s bytes is [%s], expected %s" % (lv, real, want), rp))
+                rep.obligation(name, "violated", {"frames": lv, "native": real})
+            else:
+                rep.inconclusive.append("C18 offset-table counterexample %s does not reproduce natively" % lv)
+                rep.obligation(name, "inconclusive", {"frames": lv})
+        else:
+            if res["witnesses"]:
+                model = res["witnesses"][0][0]
+                lv = [2 + ((model.eval(l, model_completion=True).as_long() % 64) & ~1) for l in lens]      # non-empty, even: one fragment per frame natively
+                real = nat_ask("bot", *lv)
+                rep.validated += 1
+                acc, want = 0, []
+                for x in lv:
+                    want.append(acc)
+                    acc += x + 8
+                if real != " ".join(map(str, want)):
+                    rep.inconclusive.append("native offset table for %s is [%s] although the encoding says it is %s" % (lv, real, want))
+            rep.obligation(name, "holds", {"paths": res["paths"]})
